@@ -14,6 +14,7 @@ import (
 	"encoding/json"
 	"fmt"
 	"io"
+	"runtime/debug"
 	"strconv"
 	"sync/atomic"
 	"time"
@@ -746,6 +747,11 @@ type counters struct {
 
 // RunSynthetic is the synthetic half of C20.
 func RunSynthetic(r *chk.Run) {
+	// every evaluation allocates a few KB and keeps nothing: collect by a
+	// memory limit instead of by growth ratio (the collector would otherwise
+	// cycle continuously and serialise the workers)
+	defer debug.SetGCPercent(debug.SetGCPercent(-1))
+	defer debug.SetMemoryLimit(debug.SetMemoryLimit(1 << 30))
 	thorough := r.Thorough()
 	words := Words()
 	shs := shapes()
